@@ -291,7 +291,38 @@ static void h_peergone(int argc, char **argv)
     mc_outcome("errors=%d", errors);
 }
 
+/* ------------------------------------------------------------------ stalled reader: a blocking sender with a time-out, a message longer than the stream buffer and a peer that does not read.
+ * Whatever a send call returns (a count or -1), the bytes that reached the peer are never more than the bytes the sender was told were sent: a caller that retries after
+ * a failure would otherwise duplicate them in the stream. */
+static PSocket *st_acc;
+static void *st_acceptor(void *arg) { (void)arg; st_acc = p_socket_accept(lsock, NULL); if (!st_acc) mc_fail("C09", "stream/accept-failed", "accept failed"); return NULL; }
+static void h_stalled(int argc, char **argv)
+{
+    PSocket *c; int t, off = 0, got_n = 0, calls = 0, failed = 0, i; static unsigned char msg[20], gotb[64]; (void)argc; (void)argv;
+    sigpipe_state(); FAM = 4; listen_setup(P_SOCKET_TYPE_STREAM);
+    for (i = 0; i < 20; i++) msg[i] = (unsigned char)(0x41 + i);
+    t = mc_thread_create(st_acceptor, NULL);
+    c = p_socket_new(fam(), P_SOCKET_TYPE_STREAM, P_SOCKET_PROTOCOL_TCP, NULL);
+    if (!c || !p_socket_connect(c, laddr, NULL)) mc_fail("C09", "stream/connect-failed", "connect failed");
+    mc_thread_join(t);
+    p_socket_set_timeout(c, 50);
+    while (off < 20 && calls < 6) {
+        PError *e = NULL; pssize r = p_socket_send(c, (pchar *)msg + off, 20 - off, &e); calls++;
+        if (r < 0) { failed = 1; if (!e || p_error_get_code(e) != (pint)P_ERROR_IO_TIMED_OUT) { bad_error("client", "send", e, 1); mc_fail("C09", "stalled/wrong-error", "send to a peer that does not read failed with code %d instead of a time-out", e ? p_error_get_code(e) : 0); } p_error_free(e); break; }
+        if (r == 0 || r > 20 - off) mc_fail("C09", "stream/send-count", "p_socket_send returned %ld for a request of %d bytes", (long)r, 20 - off);
+        off += (int)r;
+    }
+    /* now the peer drains what arrived */
+    p_socket_set_blocking(st_acc, FALSE);
+    for (;;) { pssize r = p_socket_receive(st_acc, (pchar *)gotb + got_n, 8, NULL); if (r <= 0) break; got_n += (int)r; if (got_n > 40) break; }
+    if (got_n > off) mc_fail("C09", "stalled/delivered-bytes-not-reported", "the sender was told %d bytes were sent (last call %s), %d bytes reached the peer: a retry after the failure duplicates %d bytes in the stream", off, failed ? "failed with a time-out" : "succeeded", got_n, got_n - off);
+    if (memcmp(gotb, msg, (size_t)got_n)) mc_fail("C09", "stream/bytes-changed", "the %d bytes that reached the peer are not a prefix of the message", got_n);
+    p_socket_free(c); p_socket_free(st_acc); p_socket_free(lsock); p_socket_address_free(laddr);
+    mc_nontrivial(failed ? 1 : 0);
+    mc_outcome("reported=%d arrived=%d failed=%d", off, got_n, failed);
+}
+
 static const McHarness HS[] = { {"stream", h_stream, "<msglen> <sendchunk> <recvbuf> <cli-blocking> <srv-blocking> <family>"}, {"dgram", h_dgram, "<recvbuf> <family>"}, {"peergone", h_peergone, ""}, {"halfclose", h_halfclose, ""},
-    {"accept2", h_accept2, "two acceptors, one connection"},
+    {"accept2", h_accept2, "two acceptors, one connection"}, {"stalled", h_stalled, "blocking sender with a time-out, reader that does not read"},
     {"pending", h_pending, "<b<timeout>|n>: connect to a listener that never completes the handshake"} };
 int main(int argc, char **argv) { return mc_main(argc, argv, HS, (int)(sizeof HS / sizeof HS[0])); }
